@@ -82,6 +82,27 @@ class PathEval:
             self.env[t.id] = val
             self.log.append((nid, t.id, val))
         elif isinstance(t, (ast.Tuple, ast.List)):
+            stars = [i for i, el in enumerate(t.elts) if isinstance(el, ast.Starred)]
+            if stars:
+                # `a, *rest, z = value`: the starred name takes the list of the remaining components; positions after it count from the end.
+                # With a value whose components are not known the starred name (and what follows it) is an unread value, never component k.
+                k, n = stars[0], len(t.elts)
+                m = len(val.elems) if val.elems is not None else None
+                for i, el in enumerate(t.elts):
+                    if i < k:
+                        self._assign_target(el, self.nf._project(val, (i,)), nid)
+                    elif m is not None and m >= n - 1:
+                        if i == k:
+                            rest = list(val.elems[k:m - (n - 1 - k)])
+                            pv = Poly.atom("(" + ", ".join(x.canon() for x in rest) + ")")
+                            pv.elems = rest
+                            self._assign_target(el.value, pv, nid)
+                        else:
+                            self._assign_target(el, val.elems[m - (n - i)], nid)
+                    else:
+                        tgt = el.value if isinstance(el, ast.Starred) else el
+                        self._assign_target(tgt, Poly.atom(f"φ(starred:{ast.unparse(tgt)[:30]}@{nid})"), nid)
+                return
             for i, el in enumerate(t.elts):
                 self._assign_target(el, self.nf._project(val, (i,)), nid)
         elif isinstance(t, (ast.Attribute, ast.Subscript)):
